@@ -12,7 +12,7 @@ from vlib.ops import Engine, engine_known, flush_excluded
 ID = "C01"
 LEVEL = "exploration"
 RULE = (
-    "case = (initial tree spec <= 15 nodes with clones and equal-comparing siblings, second tree as copy source, "
+    "case = (initial tree spec <= 15 nodes with clones and equal-comparing siblings, data flavour (str, int, tuple, dataclass, DictWrapper, callback-keyed objects, explicit-id dicts), second tree as copy source, "
     "history of <= 40/80 ops drawn from a swarm profile over add / append / prepend / sibling inserts / node and tree "
     "copy-in / copy_to / move_to (also into the own branch, across trees) / remove (keep_children, with_clones, nested "
     "clones) / remove_children / clear / del / sort / set_data / rename / meta / filter; plain and typed trees; "
@@ -34,7 +34,9 @@ STRUCT = {"add", "append_child", "prepend_child", "prepend_sibling", "append_sib
 
 
 def run(case, rec):
-    eng = Engine(case["spec"], typed=case.get("typed", False), spec2=case.get("spec2"), known=engine_known(rec))
+    eng = Engine(case["spec"], typed=case.get("typed", False), spec2=case.get("spec2"), known=engine_known(rec),
+                 flavour=case.get("flavour", "str"))
+    rec.cls(f"flavour={case.get('flavour', 'str')}")
     changed = 0
     rich = False
     rec.cls(f"profile={case.get('profile')}")
@@ -63,15 +65,16 @@ def run(case, rec):
     rec.nt(changed >= 3 and rich)
 
 
-def hyp_cases(tier):
+@st.composite
+def hyp_cases(draw, tier):
     n = 40 if tier == "quick" else 80
-    return st.one_of(
-        gen_ops.histories(typed=False, max_ops=n),
-        gen_ops.histories(typed=False, max_ops=n),
-        gen_ops.histories(typed=True, max_ops=n),
-    )
+    typed = draw(st.sampled_from([False, False, True]))
+    flavour = draw(st.sampled_from(["str", "str", "str", "int", "tuple", "dc", "dictwrap", "obj_cb", "obj_sub", "dict_explicit"]))
+    case = draw(gen_ops.histories(typed=typed, max_ops=n, fresh=flavour != "str"))
+    case["flavour"] = flavour
+    return case
 
 
 PARTS = [
-    Part("histories", run, strategy=hyp_cases, n={"quick": 1000, "thorough": 50000}),
+    Part("histories", run, strategy=hyp_cases, n={"quick": 1500, "thorough": 50000}),
 ]
